@@ -149,6 +149,10 @@ def times(draw, kind, n):
     if kind == "linear":
         lo = draw(st.sampled_from([0, -50, 1000, 0.5, 1e6]))
         span = draw(st.sampled_from([1, 10, 100, 1000, 3.7, 1e-3]))
+        if span < 1e-4 * abs(lo):
+            # keep numeric data in the regime in which C13/C14 specify ticks and nice(): a span of 1e-9 of the
+            # values' magnitude puts ticks a few 1e-6 of the axis beyond its end through float rounding alone
+            span = 1e-3 * abs(lo)
         if n >= 4 and draw(st.integers(0, 4)) == 0:
             return [round(lo + i * span / (n - 1), 9) for i in range(n)]
         return [draw(st.one_of(st.integers(0, 10).map(lambda k: lo + k * span / 10), st.floats(0, 1).map(lambda f: round(lo + f * span, 6)))) for _ in range(n)]
@@ -252,6 +256,13 @@ def timeline_spec(draw, tier, kinds=("linear", "datetime", "datetime", "date", "
     lab = draw(labella_opts(L, extra_engine_opts))
     if "maxPos" not in lab and draw(st.integers(0, 9)) < 5:
         lab["maxPos"] = draw(st.sampled_from([L, L, int(L * 0.5)]))
+    if len(data) > 60 and lab.get("maxPos") is not None:
+        # cost bound of the generator (not of any property): > 60 labels squeezed into dozens of layers take the best
+        # part of a minute per export; such timelines get a budget of at least an eighth of their required width
+        R0 = sum(d.get("width", 50) + 4 + lab.get("nodeSpacing", 3) for d in data)
+        need = R0 / 8 / lab.get("density", 0.85) + (lab.get("minPos") or 0)
+        if lab["maxPos"] < need:
+            lab["maxPos"] = int(need) + 1
     if min_spacing is not None and lab.get("nodeSpacing", 3) < min_spacing:
         lab["nodeSpacing"] = draw(st.sampled_from([3, 4, 10]))
     if draw(st.integers(0, 9)) == 0:
@@ -608,7 +619,7 @@ def check_c07(spec, P, tl_obj, backend, today):
         for (p, text) in P["ticks"]:
             if abs(c(p)) > 1e-9:
                 raise Violation("tick-off-axis", "%r" % (p,))
-            lo_t, hi_t = (-1e-6, L + 1e-6)
+            lo_t, hi_t = (-1e-6 - 1e-5 * L, L + 1e-6 + 1e-5 * L)  # float noise of tick arithmetic, invisible in a drawing
             if backend == "tex":
                 lo_t -= 1
             if kind != "linear" and not deg and abs(d1 - d0) < 10000:
